@@ -1,11 +1,12 @@
 """Translator for C08: the table of string-comparison SITES -> lean/Tranp/Generated/C08Sites.lean.
 
 With `ast`, finds every call of a string method that looks inside a string (`startswith endswith find rfind index rindex replace
-split rsplit partition rpartition count removeprefix removesuffix strip lstrip rstrip`), every `in` / `not in` comparison and
-every use of `re` in the files anchored by C08, `cpp_view_helper.py` and `syntax/node/definition/*.py`, and compares the list
+split rsplit partition rpartition count removeprefix removesuffix strip lstrip rstrip`), every `in` / `not in` comparison, every use
+of `re` and every `sorted()` / `.sort()` / `min()` / `max()` (order-by-spelling sites) in the files anchored by C08, `cpp_view_helper.py` and `syntax/node/definition/*.py`, and compares the list
 with the audited table `translate/c08_sites_audited.json` (site = file, enclosing definition, kind, normalised source text;
 verdict + note written by the audit). A site that is new, changed or gone means the audit no longer describes the code: the
 translator raises (broken tie -> the check reports it and the search runs with the larger budget).
+The string tests written in the Jinja templates (data/cpp/template/**/*.j2) are sites too (kind `j2`, one per template line).
 """
 from __future__ import annotations
 
@@ -14,6 +15,7 @@ import glob
 import hashlib
 import json
 import os
+import re
 from collections import Counter
 
 from harness.common import GENERATED_DIR, REPO, write_if_changed
@@ -26,6 +28,7 @@ FIXED_FILES = ['rogw/tranp/semantics/finder.py', 'rogw/tranp/dsn/dsn.py', 'rogw/
 	'rogw/tranp/implements/cpp/view/cpp_view_helper.py']
 STR_METHODS = {'startswith', 'endswith', 'find', 'rfind', 'index', 'rindex', 'replace', 'split', 'rsplit', 'partition', 'rpartition', 'count',
 	'removeprefix', 'removesuffix', 'strip', 'lstrip', 'rstrip'}
+ORDER_FUNCS = {'sorted', 'min', 'max'}
 RE_METHODS = {'fullmatch', 'search', 'sub', 'match', 'findall', 'finditer', 'subn'}
 VERDICTS = ['whole-key', 'entry-path', 'delimiter', 'unsafe-unreachable', 'not-a-name', 'config', 'name-list', 'reserved', 'reserved-prefix',
 	'modelled', 'rendered', 'literal', 'regex', 'regex-use', 'convention', 'DEFECT']
@@ -58,11 +61,35 @@ def scan(rel: str) -> list[dict[str, str]]:
 					kind = f're.{child.func.attr}'
 			elif isinstance(child, ast.Compare) and any(isinstance(o, (ast.In, ast.NotIn)) for o in child.ops):
 				kind = 'in'
+			# order-by-spelling sites: sorted() / .sort() / min() / max() over identifiers are equivariant only if used as a set
+			if kind is None and isinstance(child, ast.Call):
+				if isinstance(child.func, ast.Name) and child.func.id in ORDER_FUNCS:
+					kind = f'order.{child.func.id}'
+				elif isinstance(child.func, ast.Attribute) and child.func.attr == 'sort':
+					kind = 'order.sort'
 			if kind:
 				out.append({'file': rel, 'where': qual or '<module>', 'kind': kind, 'code': ast.unparse(child)})
 			visit(child, q)
 
 	visit(tree, '')
+	return out
+
+
+J2_PATTERN = re.compile(r"startswith|endswith|\.find\(|\.split\(|\.replace\(|\.index\(|\.count\(|reg_\w+\(|\b(?:not )?in [\[\('\w]")
+
+
+def scan_templates() -> list[dict[str, str]]:
+	"""String tests written in the Jinja templates (data/cpp/template/**/*.j2): one site per template line that contains one."""
+	out: list[dict[str, str]] = []
+	root = os.path.join(REPO, 'data', 'cpp', 'template')
+	for p in sorted(glob.glob(os.path.join(root, '**', '*.j2'), recursive=True)):
+		with open(p, encoding='utf-8') as f:
+			for ln in f.read().split('\n'):
+				t = ln.strip()
+				if re.search(r'\{%-?\s*for\b', t) and not re.search(r'startswith|endswith|reg_', t):
+					continue
+				if J2_PATTERN.search(t) and ('{%' in t or '{{' in t):
+					out.append({'file': os.path.relpath(p, REPO), 'where': '<template>', 'kind': 'j2', 'code': t})
 	return out
 
 
@@ -75,7 +102,7 @@ def ctor(verdict: str) -> str:
 
 
 def generate() -> list[dict]:
-	found = [s for f in files() for s in scan(f)]
+	found = [s for f in files() for s in scan(f)] + scan_templates()
 	with open(AUDITED, encoding='utf-8') as f:
 		audited = json.load(f)
 	key = lambda s: (s['file'], s['where'], s['kind'], s['code'])  # noqa: E731
